@@ -281,7 +281,7 @@ func addrRoot(v ssa.Value) ssa.Value {
 	for {
 		switch x := v.(type) {
 		case *ssa.FieldAddr:
-			v = x.X
+			v = resolveCell(x.X)
 		case *ssa.IndexAddr:
 			if _, isPtr := x.X.Type().Underlying().(*types.Pointer); isPtr {
 				v = x.X // element of an array addressed in place
